@@ -4,7 +4,10 @@ import LentilVerif.Lemmas.EnergyPupil
 import LentilVerif.Lemmas.FourierWiring   -- the dft2 model = the wiring regenerated from fourier.py (theorem: C01.dft2_follows_source_wiring)
 /-! # C05 — propagation conserves energy
 
-Property theorems only. Model: `Model/Energy.lean` over `Model/Fourier.lean`, instantiated at `K = ℂ`, `R = ℝ`. -/
+Property theorems only, at `K = ℂ`, `R = ℝ`. The propagators are the C02 model (`propagateField`, window kernel regenerated) and the
+C09 model (`propagateFft`); `Model/Energy.lean` adds `intensity`, `arrSum`, `normalizePower` (factor regenerated) and the reference
+power `embedAll`. No theorem here is about a hand-written propagator of C05's own; "the FFT path is the centred unitary DFT" is
+C09 `fft_path_is_unitary_dft_complex`, used through `fft_eq_propagate_dft`. -/
 namespace Lentil.C05
 open Lentil Finset
 
@@ -65,60 +68,6 @@ theorem dft_full_period_energy (f : Arr ℂ) (m n : ℕ) (hm : f.s0 = m) (hn : f
   simp only [intensity, NormSqLike.normSq, dft2C_s0, dft2C_s1, hm, hn, Int.toNat_natCast]
   exact dft2_energy f m n hm hn K L hK hL hmK hnL shr shc offr offc
 
-/-- **windows.** For any fields and samplings, an evaluated window only selects samples of the field at integer frequency
-coordinates, so for nested windows `W₁ ⊆ W₂` (as coordinate boxes `[U, U+M) × [V, V+N)`): `0 ≤ E(W₁) ≤ E(W₂)`. -/
-theorem window_energy_monotone (fs : List (Fld ℂ)) (αr αc : ℝ) (M1 N1 M2 N2 : ℕ) (U1 V1 U2 V2 : ℤ)
-    (hU : U2 ≤ U1 ∧ U1 + M1 ≤ U2 + M2) (hV : V2 ≤ V1 ∧ V1 + N1 ≤ V2 + N2) :
-    0 ≤ arrSum (intensity (R := ℝ) (propagateWindow fs αr αc M1 N1 U1 V1)) ∧
-    arrSum (intensity (R := ℝ) (propagateWindow fs αr αc M1 N1 U1 V1))
-      ≤ arrSum (intensity (R := ℝ) (propagateWindow fs αr αc M2 N2 U2 V2)) := by
-  rw [window_energy_eq, window_energy_eq]
-  constructor
-  · exact sum_nonneg fun U _ => sum_nonneg fun V _ => Complex.normSq_nonneg _
-  · calc ∑ U ∈ Finset.Ico U1 (U1 + M1), ∑ V ∈ Finset.Ico V1 (V1 + N1), Complex.normSq (fieldAt fs αr αc U V)
-        ≤ ∑ U ∈ Finset.Ico U1 (U1 + M1), ∑ V ∈ Finset.Ico V2 (V2 + N2), Complex.normSq (fieldAt fs αr αc U V) :=
-          sum_le_sum fun U _ => sum_le_sum_of_subset_of_nonneg (Finset.Ico_subset_Ico hV.1 hV.2)
-            (fun _ _ _ => Complex.normSq_nonneg _)
-      _ ≤ _ := sum_le_sum_of_subset_of_nonneg (Finset.Ico_subset_Ico hU.1 hU.2)
-            (fun _ _ _ => sum_nonneg fun V _ => Complex.normSq_nonneg _)
-
-example : ∃ (M1 N1 M2 N2 : ℕ) (U1 V1 U2 V2 : ℤ), (U2 ≤ U1 ∧ U1 + M1 ≤ U2 + M2) ∧ (V2 ≤ V1 ∧ V1 + N1 ≤ V2 + N2) ∧ M1 < M2 :=
-  ⟨2, 3, 6, 4, -1, -2, -3, -2, by norm_num, by norm_num, by norm_num⟩
-
-/-- **a window captures no more than the input power.** On a commensurate sampling (`α = (1/K, 1/L)`, `K ≥ rows`,
-`L ≥ cols`) every window inside the period `[-⌊K/2⌋, -⌊K/2⌋+K) × [-⌊L/2⌋, -⌊L/2⌋+L)` has `E(W) ≤ Σ|f|²`; with
-`window_energy_monotone`: `0 ≤ E(W₁) ≤ E(W₂) ≤ Σ|f|²`. -/
-theorem window_energy_le_input_power (f : Fld ℂ) (m n : ℕ) (hm : f.arr.s0 = m) (hn : f.arr.s1 = n) (K L : ℕ)
-    (hK : 0 < K) (hL : 0 < L) (hmK : m ≤ K) (hnL : n ≤ L) (M N : ℕ) (U0 V0 : ℤ)
-    (hU : -((K : ℤ) / 2) ≤ U0 ∧ U0 + M ≤ -((K : ℤ) / 2) + K) (hV : -((L : ℤ) / 2) ≤ V0 ∧ V0 + N ≤ -((L : ℤ) / 2) + L) :
-    arrSum (intensity (R := ℝ) (propagateWindow [f] (1 / (K : ℝ)) (1 / (L : ℝ)) M N U0 V0))
-      ≤ arrSum (intensity (R := ℝ) f.arr) := by
-  refine le_trans (window_energy_monotone [f] _ _ M N K L U0 V0 (-((K : ℤ) / 2)) (-((L : ℤ) / 2)) hU hV).2 (le_of_eq ?_)
-  rw [← dft_full_period_energy f.arr m n hm hn K L hK hL hmK hnL
-    (-(RealLike.ofInt (-((K : ℤ) / 2) + (K : ℤ) / 2))) (-(RealLike.ofInt (-((L : ℤ) / 2) + (L : ℤ) / 2))) f.o0 f.o1]
-  congr 2
-  simp [propagateWindow, sumList, dft2]
-
-/-- **the FFT path is the centred unitary DFT.** With `np.fft.fft2(norm='ortho')` the unitary DFT with origin at index 0
-and `fftshift`/`ifftshift` their documented index maps (contracts), `fftshift ∘ fft2 ∘ ifftshift` on an `S0 × S1` grid
-equals `dft2` with `α = (1/S0, 1/S1)`, unitary, both origins at `⌊S/2⌋` — at every index, for even *and* odd sizes. -/
-theorem fft_path_is_unitary_dft (x : Arr ℂ) (S0 S1 : ℕ) (h0 : x.s0 = S0) (h1 : x.s1 = S1) (hS0 : 0 < S0) (hS1 : 0 < S1)
-    (k l : ℤ) :
-    (fftPath (R := ℝ) x).get k l = (dft2 x (1 / (S0 : ℝ)) (1 / (S1 : ℝ)) S0 S1 0 0 0 0 true).get k l :=
-  fftPath_eq_dft2 x S0 S1 h0 h1 hS0 hS1 k l
-
-/-- hence the FFT propagator conserves energy on its (zero-padded) grid: `Σ|fftPath x|² = Σ|x|²` -/
-theorem fft_path_conserves_energy (x : Arr ℂ) (S0 S1 : ℕ) (h0 : x.s0 = S0) (h1 : x.s1 = S1) (hS0 : 0 < S0) (hS1 : 0 < S1) :
-    arrSum (intensity (R := ℝ) (fftPath (R := ℝ) x)) = arrSum (intensity (R := ℝ) x) := by
-  rw [← dft_full_period_energy x S0 S1 h0 h1 S0 S1 hS0 hS1 le_rfl le_rfl 0 0 0 0, arrSum_eq, arrSum_eq]
-  have e0 : (intensity (R := ℝ) (fftPath (R := ℝ) x)).s0 = S0 := h0
-  have e1 : (intensity (R := ℝ) (fftPath (R := ℝ) x)).s1 = S1 := h1
-  have e2 : (intensity (R := ℝ) (dft2 x (1 / (S0 : ℝ)) (1 / (S1 : ℝ)) S0 S1 0 0 0 0 true)).s0 = S0 := rfl
-  have e3 : (intensity (R := ℝ) (dft2 x (1 / (S0 : ℝ)) (1 / (S1 : ℝ)) S0 S1 0 0 0 0 true)).s1 = S1 := rfl
-  rw [e0, e1, e2, e3]
-  refine sum_congr rfl fun i _ => sum_congr rfl fun j _ => ?_
-  simp only [intensity, NormSqLike.normSq, fftPath_eq_dft2 x S0 S1 h0 h1 hS0 hS1]
-
 /-! ## over the C02 propagation model (generated window kernel), for any number of fields -/
 
 /-- **the samples `propagate_dft` produces are `fieldAt`.** For tilt-free fields, any output extent (whole array or the
@@ -158,8 +107,38 @@ theorem propagate_dft_energy (fs : List (Fld ℂ)) (S0 S1 K L : ℕ) (hfit : ∀
     refine sum_congr rfl fun p hp => ?_
     rw [propagate_dft_samples fs _ _ oe P0 P1 hoe hP, hcover p hp, if_pos rfl]
 
-/-- **nested sets of output samples capture nested energies** (over the C02 model, any fields, any window parameters): the
-property's "no smaller than that of any window it contains". -/
+/-- **nested windows of two calls.** Two calls of `propagate_dft` on the same fields and sampling whose evaluated windows
+(`out_extent ∩ prop_extent`: whole array or mask box, any propagation shapes) are nested — every plane coordinate the first call
+evaluates, the second evaluates too. Then over *any* finite set `B` of plane coordinates (in particular the whole first window,
+or the whole second one) the first call's intensity is non-negative and at most the second's: inside the first window both
+calls hold the same samples, outside it the first holds zero. With `propagate_dft_energy` (`B` inside one period):
+`0 ≤ E(W₁) ≤ E(W₂) ≤ input power`. -/
+theorem propagate_dft_nested_windows (fs : List (Fld ℂ)) (αr αc : ℝ) (oe oe' : Extent) (P0 P1 P0' P1' : ℤ)
+    (hoe : oe.rmin ≤ oe.rmax ∧ oe.cmin ≤ oe.cmax) (hP : 0 < P0 ∧ 0 < P1)
+    (hoe' : oe'.rmin ≤ oe'.rmax ∧ oe'.cmin ≤ oe'.cmax) (hP' : 0 < P0' ∧ 0 < P1')
+    (hsub : ∀ r c, (oe.inb r c && (propExtent P0 P1 0 0).inb r c) = true →
+      (oe'.inb r c && (propExtent P0' P1' 0 0).inb r c) = true)
+    (B : Finset (ℤ × ℤ)) :
+    0 ≤ ∑ p ∈ B, Complex.normSq ((fs.map fun f => embO (propagateField (⟨f, 0, 0, 0, 0⟩ : TField ℂ ℝ) αr αc oe P0 P1) p.1 p.2).sum) ∧
+    ∑ p ∈ B, Complex.normSq ((fs.map fun f => embO (propagateField (⟨f, 0, 0, 0, 0⟩ : TField ℂ ℝ) αr αc oe P0 P1) p.1 p.2).sum)
+      ≤ ∑ p ∈ B, Complex.normSq ((fs.map fun f => embO (propagateField (⟨f, 0, 0, 0, 0⟩ : TField ℂ ℝ) αr αc oe' P0' P1') p.1 p.2).sum) := by
+  refine ⟨sum_nonneg fun _ _ => Complex.normSq_nonneg _, sum_le_sum fun p _ => ?_⟩
+  rw [propagate_dft_samples fs αr αc oe P0 P1 hoe hP, propagate_dft_samples fs αr αc oe' P0' P1' hoe' hP']
+  by_cases h : (oe.inb p.1 p.2 && (propExtent P0 P1 0 0).inb p.1 p.2) = true
+  · rw [if_pos h, if_pos (hsub _ _ h)]
+  · rw [if_neg h]; simp [Complex.normSq_nonneg]
+
+/-- the hypothesis is satisfiable by two genuinely different calls: a 3 × 3 mask box inside a 5 × 5 one, both inside an 8 × 8
+propagation shape -/
+example : ∃ (oe oe' : Extent) (P : ℤ), oe ≠ oe' ∧ ∀ r c, (oe.inb r c && (propExtent P P 0 0).inb r c) = true →
+    (oe'.inb r c && (propExtent P P 0 0).inb r c) = true :=
+  ⟨⟨-1, 1, -1, 1⟩, ⟨-2, 2, -2, 2⟩, 8, by decide, by
+    intro r c h
+    simp only [Bool.and_eq_true, Extent.inb_iff, propExtent, arrayExtent_eq] at h ⊢
+    omega⟩
+
+/-- **nested sets of output samples of one call capture nested energies** (over the C02 model, any fields, any window
+parameters) — monotonicity in the summation set; for nested windows of two calls see `propagate_dft_nested_windows`. -/
 theorem propagate_dft_energy_monotone (fs : List (Fld ℂ)) (αr αc : ℝ) (oe : Extent) (P0 P1 : ℤ) (B B' : Finset (ℤ × ℤ)) (h : B ⊆ B') :
     ∑ p ∈ B, Complex.normSq ((fs.map fun f => embO (propagateField (⟨f, 0, 0, 0, 0⟩ : TField ℂ ℝ) αr αc oe P0 P1) p.1 p.2).sum)
       ≤ ∑ p ∈ B', Complex.normSq ((fs.map fun f => embO (propagateField (⟨f, 0, 0, 0, 0⟩ : TField ℂ ℝ) αr αc oe P0 P1) p.1 p.2).sum) :=
@@ -270,6 +249,47 @@ theorem pupil_images_to_amplitude_power (wl : ℝ) (amp : Attr ℂ) (opd : Attr 
       = ∑ i ∈ range S0, ∑ j ∈ range S1, (if g.m i j = true then Complex.normSq (amp.at i j) else 0) :=
   pupil_image_total_aux wl amp opd S0 S1 K L g hc hbig hK hL hS0 hS1 oe P0 P1 hoe hP hcover
 
+/-- **a normalised pupil images to total `p`** — the property's "and therefore images to total p" as one statement. The
+amplitude is `normalize_power(a, p)` (factor regenerated from `util.py`) of an array `a` of the plane's shape with non-zero power
+that vanishes outside the mask, `p ≥ 0`; the fresh wavefront times that pupil (C07 `Plane.multiply`, monolithic mask with a
+bounding box of more than one pixel, any OPD and wavelength), propagated by the C02 model over one full period `K × L ≥` plane
+shape, has image total exactly `p`. (Segmented masks: C03 `segmented_eq_monolithic_end_to_end`; FFT path and segmented pupils
+here: oracle.) -/
+theorem normalized_pupil_images_to_p (wl : ℝ) (a : Arr ℂ) (p : ℝ) (hp : 0 ≤ p) (opd : Attr ℝ) (S0 S1 K L : ℕ)
+    (ha0 : a.s0 = S0) (ha1 : a.s1 = S1) (hpow : 0 < arrSum (intensity (R := ℝ) a)) (g : Seg) (hc : g.covers S0 S1)
+    (hsupp : ∀ i j, g.m i j = false → a.get i j = 0)
+    (hbig : g.s.r0 < g.s.r1 ∧ g.s.c0 < g.s.c1 ∧ ¬ (g.s.r1 - g.s.r0 = 1 ∧ g.s.c1 - g.s.c0 = 1))
+    (hK : 0 < K) (hL : 0 < L) (hS0 : S0 ≤ K) (hS1 : S1 ≤ L) (oe : Extent) (P0 P1 : ℤ)
+    (hoe : oe.rmin ≤ oe.rmax ∧ oe.cmin ≤ oe.cmax) (hP : 0 < P0 ∧ 0 < P1)
+    (hcover : ∀ q ∈ periodBox K L, (oe.inb q.1 q.2 && (propExtent P0 P1 0 0).inb q.1 q.2) = true) :
+    ∑ q ∈ periodBox K L, Complex.normSq
+        (((planeMultiply (planePh wl) ⟨.array (normalizePower a p), opd, .segs S0 S1 [g]⟩ [unitField]).map fun f =>
+          embO (propagateField (⟨f, 0, 0, 0, 0⟩ : TField ℂ ℝ) (1 / (K : ℝ)) (1 / (L : ℝ)) oe P0 P1) q.1 q.2).sum)
+      = p := by
+  rw [pupil_images_to_amplitude_power wl (.array (normalizePower a p)) opd S0 S1 K L g hc hbig hK hL hS0 hS1 oe P0 P1 hoe hP hcover]
+  refine Eq.trans ?_ (normalize_power_power a p hp hpow)
+  rw [arrSum_eq]
+  have e0 : (intensity (R := ℝ) (normalizePower a p)).s0 = S0 := ha0
+  have e1 : (intensity (R := ℝ) (normalizePower a p)).s1 = S1 := ha1
+  rw [e0, e1]
+  simp only [Int.toNat_natCast]
+  refine sum_congr rfl fun i _ => sum_congr rfl fun j _ => ?_
+  by_cases hm : g.m i j = true
+  · rw [if_pos hm]; rfl
+  · rw [if_neg hm]
+    have hz : a.get i j = 0 := hsupp i j (by simpa using hm)
+    show (0 : ℝ) = Complex.normSq (a.get i j * _)
+    rw [hz, zero_mul, map_zero]
+
+/-- the window hypothesis `hcover` of the period theorems is met by the plain call: whole output array `K × L`, propagation shape
+`K × L` — the evaluated window is exactly one period -/
+example (K L : ℕ) (hK : 0 < K) (hL : 0 < L) :
+    ∀ q ∈ periodBox K L, ((arrayExtent K L 0 0).inb q.1 q.2 && (propExtent K L 0 0).inb q.1 q.2) = true := by
+  intro q hq
+  simp only [periodBox, Finset.mem_product, Finset.mem_Ico] at hq
+  simp only [Bool.and_eq_true, Extent.inb_iff, propExtent, arrayExtent_eq]
+  omega
+
 /-- **fields carrying different tilts.** Every field `t` has its own shift `fix + sub`. Where every field's window covers one whole
 period, the intensity `|Σ fields|²` of the C02 model summed over that period equals the power of the coherent sum of the *tilted*
 input fields — each input multiplied by its own phase ramp `exp(2πi(αr·X·s_r + αc·Y·s_c))` (`rampFld`): differently tilted fields
@@ -282,14 +302,5 @@ theorem multi_tilt_period_energy (ts : List (TField ℂ ℝ)) (S0 S1 K L : ℕ) 
       = arrSum (intensity (R := ℝ) (embedAll (ts.map fun t =>
           rampFld t.fld (1 / (K : ℝ)) (1 / (L : ℝ)) ((t.fix0 : ℝ) + t.sub0) ((t.fix1 : ℝ) + t.sub1)) S0 S1)) :=
   multi_tilt_period_energy_aux ts S0 S1 K L hfit hK hL hS0 hS1 oe P0 P1 hoe hP hcover
-
-/-- **the `fft2` contract is the textbook unitary DFT.** `fft2ortho` (written with the shared `dft2` so that the FFT path
-theorem can reuse its algebra) is entry by entry `(1/√(mn)) Σ_a Σ_b x[a,b]·exp(−2πi·a·k/m)·exp(−2πi·b·l/n)`, origin at index 0 -/
-theorem fft2_contract_is_textbook (x : Arr ℂ) (m n : ℕ) (hm : x.s0 = m) (hn : x.s1 = n) (k l : ℤ) :
-    (fft2ortho (R := ℝ) x).get k l = ((Real.sqrt |(1 / (m : ℝ)) * (1 / (n : ℝ))| : ℝ) : ℂ) *
-      ∑ b ∈ range n, (∑ a ∈ range m, Complex.exp (-(2 * Real.pi * Complex.I) * ((a * k : ℤ) : ℂ) / m) * x.get a b)
-        * Complex.exp (-(2 * Real.pi * Complex.I) * ((b * l : ℤ) : ℂ) / n) := by
-  rw [fft2ortho_get_eq x m n hm hn]
-  simp only [fker_eq, E]
 
 end Lentil.C05
